@@ -42,7 +42,18 @@ def cmp_dict(params, student, utils):
     return {'grade_decimal': 0, 'msg': 'nope'}
 
 
+VERDICTS = [True, False, 'partial', {'grade_decimal': 0}, {'grade_decimal': 0.25, 'msg': 'quarter'}, {'grade_decimal': 1}]
+
+
+def _const_comparer(v):
+    def cmp_const(params, student, utils):
+        return dict(v) if isinstance(v, dict) else v
+    return cmp_const
+
+
 FUNCS = {'cmp_partial': cmp_partial, 'cmp_dict': cmp_dict}
+for _i, _v in enumerate(VERDICTS):
+    FUNCS['cmp_const_%d' % _i] = _const_comparer(_v)
 
 
 def make_credit(kind, params):
@@ -504,11 +515,15 @@ class Gen(object):
             o['partial_credit'] = False
         return {'cls': 'ListGrader', 'opts': o}, texts
 
+    SENTINEL = '§no§match§'
+
     def list_inputs(self, texts):
         r = self.r
         xs = list(texts)
         x = r.random()
-        if x < 0.3:
+        if x < 0.18:
+            xs[r.randrange(len(xs))] = self.SENTINEL      # exactly one input that no answer can match
+        elif x < 0.3:
             pass
         elif x < 0.55:
             r.shuffle(xs)
